@@ -667,6 +667,7 @@ def isolation(ctx, match, mpaths):
            'and makes the bus\'s disconnect cleanup raise KeyError' % why)
     filed_when_complete(ctx, 'C12.D5')
     cancel_is_synchronous(ctx)
+    removal_reaches_the_daemon(ctx)
     # the daemon-side user of the same router: RemoveMatch over all
     # add/remove histories (shared with C14.D5)
     bus = prog.cls('bus.Bus')
@@ -705,6 +706,39 @@ def filed_when_complete(ctx, rule_id):
            'constraints are added: if adding one raises (unknown message '
            'type), a rule without them - matching everything - stays '
            'registered although the caller was told it failed' % worst)
+
+
+def removal_reaches_the_daemon(ctx):
+    """client.delMatch(id) asks the daemon to remove the rule on every path
+    - unless the id is not registered, which only a membership test (or the
+    lookup's `is None`) can tell: the rule TEXT of a registered catch-all
+    rule is the empty string, and a truth test takes it for "unknown"."""
+    prog = ctx.prog
+    fi = prog.func('client.DBusClientConnection.delMatch')
+    rid = ('param', fi.params()[1])
+    n = 0
+    for p in Interp(prog, exc_edges=False).run(fi):
+        if p.outcome == 'raise':
+            continue
+        n += 1
+        asked = any(C('RemoveMatch') in c[3] for c in p.calls())
+        if asked:
+            continue
+        absent = any(
+            (kind(c) == 'cmp' and c[1] in ('in', 'not in') and c[2] == rid
+             and (c[1] == 'not in') == pol) or
+            (kind(c) == 'cmp' and c[1] in ('is', 'is not') and c[3] == NONE
+             and contains(c[2], lambda x: x == rid) and (c[1] == 'is') == pol)
+            for c, pol in p.cond)
+        ctx.ob('C12.D5', fi.qualname, 'removal-reaches-the-daemon', absent,
+               'delMatch returns without asking the daemon for RemoveMatch '
+               'on a path that has not established that the id is '
+               'unregistered [%s]: a registered rule without constraints '
+               '(text "") stays in force and its callback keeps firing'
+               % '; '.join('%s is %s' % (term_str(c)[:60], pol)
+                           for c, pol in p.cond[-2:]))
+    if n == 0:
+        raise AnalysisError('client.delMatch: no path')
 
 
 def cancel_is_synchronous(ctx):
